@@ -11,7 +11,7 @@ LEVEL = "proof"
 RULE = ("tables of ~60 rows per do_call(method=threshold): log2 = every threshold, its two float neighbours "
         "(nextafter), every integer crossing of r*2^log2 and its neighbours, random reals, NaN; threshold vectors: "
         "the defaults and random strictly increasing vectors of length 1..12; ploidy 1..6 x {autosome, X, Y} x hapX "
-        "x naming style (incl. upper/lower case); BAF grid {0, 1/4, 1/2, 3/4, 1, random, missing}; plus clonal calls at purity "
+        "x naming style (incl. upper/lower case, and autosome-class rows named chrM / MT / contigs / alternate haplotypes); BAF grid {0, 1/4, 1/2, 3/4, 1, random, missing}; plus clonal calls at purity "
         "0.2..0.99 with the BAFs supplied as variants (0..3 SNPs per segment, frequencies incl. 0, 0.01, 0.99, 1), where "
         "the purity rescale pushes BAF outside [0,1]; plus threshold calls at purity 0.2..0.99 (the scan then reads the rescaled log2; a "
         "third of the rows aimed 1e-6 / 1e-3 either side of a threshold in rescaled space). "
@@ -195,6 +195,8 @@ def gen_cases(rng, tier):
         cases.append(c)
     cases += [_vtable(rng) for _ in range({"quick": 30, "thorough": 300, "search": 60}[tier])]
     cases += [_ptable(rng) for _ in range({"quick": 40, "thorough": 400, "search": 80}[tier])]
+    # autosome-class rows under names other than 1..22 (chrM, contigs, names merely containing x / y): full step values
+    cases += [K.other_names(rng, _table(rng, 30), 0.6) for _ in range({"quick": 20, "thorough": 200, "search": 20}[tier])]
     return cases
 
 
